@@ -670,7 +670,7 @@ regurgitate_pfam_as_afa(ESL_MSAFILE *afp, FILE *ofp, char *alifile, char *gapsym
 
 	  /* make sure we haven't just read a second line of the first sequence in file (we must be in Pfam 1 line/seq file) */
 	  if (nseq_read == 0) { if ((status = esl_memstrdup(seqname, seqnamelen, &(first_seqname))) != eslOK) esl_fatal("small mem parse failed: unable to copy seqname"); }
-	  else if (esl_memstrcmp(seqname, seqnamelen, first_seqname)) esl_fatal("--small parse pass 2 failed (line %d): two seqs named %s. Alignment appears to be in interleaved Stockholm (not Pfam) format.", (int) afp->linenumber, seqname); 
+	  else if (esl_memstrcmp(seqname, seqnamelen, first_seqname)) esl_fatal("--small parse pass 2 failed (line %d): two seqs named %.*s. Alignment appears to be in interleaved Stockholm (not Pfam) format.", (int) afp->linenumber, (int) seqnamelen, seqname); 
 	  nseq_read++;
 
 	  /* determine if we have an accession and/or description for this sequence */
@@ -886,7 +886,7 @@ regurgitate_pfam_as_pfam(ESL_MSAFILE *afp, FILE *ofp, char *gapsym, int force_lo
       
 	  /* make sure we haven't just read a second line of the first sequence in file (we must be in Pfam 1 line/seq file) */
 	  if (nseq_read == 0) { if ((status = esl_memstrdup(seqname, namelen, &(first_seqname))) != eslOK) goto ERROR; }
-	  else if (esl_memstrcmp(seqname, namelen, first_seqname)) { ESL_XFAIL(eslEFORMAT, afp->errmsg, "parse failed (line %d): two seqs named %s. Alignment appears to be in Stockholm format. Reformat to Pfam with esl-reformat.", (int) afp->linenumber, seqname); }
+	  else if (esl_memstrcmp(seqname, namelen, first_seqname)) { ESL_XFAIL(eslEFORMAT, afp->errmsg, "parse failed (line %d): two seqs named %.*s. Alignment appears to be in Stockholm format. Reformat to Pfam with esl-reformat.", (int) afp->linenumber, (int) namelen, seqname); }
 	  nseq_read++;
       
 	  /* we need to make a writable string copy of the annotation, to edit it */
